@@ -35,7 +35,7 @@ def gen_trial(rng, profile):
     """profile: 'wf' (per-source strictly increasing ids, consistent blocks) | 'adv' (arbitrary ids, restarts, loss)
     | 'bal' (balanced receiver)."""
     bal = profile == 'bal'
-    slash = profile != 'bal' and rng.random() < 0.06
+    slash = rng.random() < (0.06 if profile != 'bal' else 0.2)
     n = rng.choice([1, 2, 2, 2, 3, 3]) if not bal else rng.choice([2, 2, 3, 4])
     srcs, tops = [], []
     for i in range(n):
@@ -241,7 +241,9 @@ def oracles(trial, calls):
                 elif mapped(spec, pt) != t: v['C02'].append(('wrong-topic-name', f'{pt!r} delivered as {t!r}, subscription {spec}'))
                 if srcs[i]['eph'] == 0 and mid != rid: v['C01'].append(('mixed-ids', f'set returned as id {rid} holds source {i} frame of id {mid}'))
                 if srcs[i]['eph'] == 0:   # at most once / unaltered: every wire message of a synchronised source is handed over at most once, under its own id
-                    if b in seen_sync: v['C02'].append(('redelivered', f'source {i}: the message published as id {mid} topic {pt!r} is delivered again, in the set returned as id {rid}'))
+                    if b in seen_sync:
+                        v['C02'].append(('redelivered', f'source {i}: the message published as id {mid} topic {pt!r} is delivered again, in the set returned as id {rid}'))
+                        if trial['balance']: v['C07'].append(('bal-duplicate', f'balanced rejoin: worker {i}: the frame published as id {mid} topic {pt!r} is returned again, in the set of id {rid}'))
                     elif mid != rid: v['C02'].append(('frame-under-other-id', f'source {i}: frame published under id {mid} delivered in the set of id {rid}'))
                     seen_sync.add(b)
             if last_id is not None and rid <= last_id:
